@@ -1009,6 +1009,35 @@ func (env *SpecEnv) call(x *CExpr) (SVal, error) {
 		n.heap = env.oldHeap
 		n.inOld = false
 		return (&n).tr(x.Args[0])
+	case "fieldaddr": // fieldaddr(p, f): the address &p.f of a struct-valued field f embedded by value in *p
+		a, err := argv(0)
+		if err != nil {
+			return SVal{}, err
+		}
+		if a.Typ == nil {
+			return SVal{}, fmt.Errorf("fieldaddr: untyped pointer")
+		}
+		pt, ok := a.Typ.Underlying().(*types.Pointer)
+		if !ok || e.W.structInfo(pt.Elem()) == nil {
+			return SVal{}, fmt.Errorf("fieldaddr: first argument is not a pointer to a struct")
+		}
+		si := e.W.structInfo(pt.Elem())
+		fi := fieldIndex(si.St, x.Args[1].String())
+		if fi < 0 || e.W.structInfo(si.St.Field(fi).Type()) == nil {
+			return SVal{}, fmt.Errorf("fieldaddr: %s is not a struct-valued field", x.Args[1])
+		}
+		return SVal{T: e.subRef(pt.Elem(), fi, a.T), Typ: types.NewPointer(si.St.Field(fi).Type()), Sort: "Int"}, nil
+	case "atlock": // atlock(e): e evaluated in the heap right after the first mutex Lock of the function (the linearization point's pre-state)
+		n := *env
+		if e.lockHeap != nil {
+			n.heap = e.lockHeap
+		} else if env.oldHeap != nil {
+			n.heap = env.oldHeap // no Lock encoded yet (a return before the Lock): entry state
+		} else {
+			return SVal{}, fmt.Errorf("atlock: no lock and no entry heap in this context")
+		}
+		n.inOld = false
+		return (&n).tr(x.Args[0])
 	case "atentry": // atentry(e): e evaluated in the heap with which the current loop was entered
 		if env.loop == nil || env.loop.entryHeap == nil {
 			return SVal{}, fmt.Errorf("atentry outside a loop invariant (or loop with several entry edges)")
